@@ -358,6 +358,209 @@ fn build_pool(seed: u64, size: usize, max_n: usize, max_m: u64, threads: usize) 
     specs.into_iter().zip(keep).filter(|(_, k)| *k.lock().unwrap()).map(|(s, _)| s).collect()
 }
 
+// ----------------------------------------------------------------------- through mithril-common's MultiSigner
+
+mod node_path {
+    use std::collections::{BTreeMap, BTreeSet};
+    use std::sync::{Mutex, OnceLock};
+
+    use mithril_common::entities::{ProtocolMessage, ProtocolMessagePartKey, ProtocolParameters, SingleSignature};
+    use mithril_common::protocol::{SignerBuilder, ToMessage};
+    use mithril_common::test::builder::{MithrilFixture, MithrilFixtureBuilder};
+    use mithril_stm::{AggregateSignatureType, AncillaryGenesisData, AncillaryProofInput};
+    use proptest::prelude::*;
+    use serde::{Deserialize, Serialize};
+    use vcore::{Report, catch, pick_index};
+
+    const M: u64 = 24;
+    const PHI: f64 = 0.8;
+
+    #[derive(Clone, Debug, Serialize, Deserialize)]
+    pub enum Extra {
+        Copy(u16),
+        /// party i's signature for another message, sent under its own name
+        OtherMsg(u16),
+        /// signature i filed under the name of party j
+        Relabel(u16, u16),
+        /// copy restricted to a subset of its indices
+        SubCopy(u16, u32),
+    }
+
+    #[derive(Clone, Debug, Serialize, Deserialize)]
+    pub struct Case {
+        msg_id: u8,
+        kraw: u16,
+        base_mask: u16,
+        extras: Vec<Extra>,
+        positions: Vec<u16>,
+        perm: Vec<u16>,
+    }
+
+    pub fn fixture() -> &'static MithrilFixture {
+        static F: OnceLock<MithrilFixture> = OnceLock::new();
+        F.get_or_init(|| MithrilFixtureBuilder::default().with_signers(6).with_protocol_parameters(ProtocolParameters::new(1, M, PHI)).build())
+    }
+
+    fn message(id: u8) -> ProtocolMessage {
+        let mut m = ProtocolMessage::new();
+        m.set_message_part(ProtocolMessagePartKey::SnapshotDigest, format!("{:064x}", id as u64 + 1));
+        m
+    }
+
+    fn honest(id: u8) -> Vec<SingleSignature> {
+        static CACHE: OnceLock<Mutex<BTreeMap<u8, Vec<SingleSignature>>>> = OnceLock::new();
+        let c = CACHE.get_or_init(Default::default);
+        if let Some(v) = c.lock().unwrap().get(&id) {
+            return v.clone();
+        }
+        let v = fixture().sign_all(&message(id));
+        c.lock().unwrap().insert(id, v.clone());
+        v
+    }
+
+    fn indices(s: &SingleSignature) -> Vec<u64> {
+        s.to_protocol_signature().get_concatenation_signature_indices()
+    }
+
+    pub fn case_fn(c: &Case) -> Report {
+        let mut rep = Report::new();
+        let id = c.msg_id % 8;
+        let msg = message(id);
+        let all = honest(id);
+        if all.is_empty() {
+            rep.discard("nobody wins");
+            return rep;
+        }
+        let mut base: Vec<SingleSignature> = all.iter().enumerate().filter(|(i, _)| c.base_mask == 0 || c.base_mask >> (i % 16) & 1 == 1).map(|(_, s)| s.clone()).collect();
+        if base.is_empty() {
+            base.push(all[0].clone());
+        }
+        let u_base: BTreeSet<u64> = base.iter().flat_map(indices).collect();
+        let k = match c.kraw % 8 {
+            0 => u_base.len() as u64 + 1,
+            _ => 1 + pick_index(c.kraw, u_base.len().max(1)) as u64,
+        };
+        let pp = ProtocolParameters::new(k, M, PHI);
+        let Ok(sb) = SignerBuilder::new(&fixture().signers_with_stake(), &pp) else {
+            rep.violation("node:signer-builder", "SignerBuilder::new failed on the fixture".to_string());
+            return rep;
+        };
+        let ms = sb.build_multi_signer();
+        let avk = ms.compute_aggregate_verification_key();
+        let pick = |raw: u16| &all[pick_index(raw, all.len())];
+        let mut extras: Vec<(&'static str, SingleSignature)> = vec![];
+        for e in &c.extras {
+            match e {
+                Extra::Copy(i) => extras.push(("copy", pick(*i).clone())),
+                Extra::OtherMsg(i) => {
+                    let party = &pick(*i).party_id;
+                    let other = honest((id + 1) % 8);
+                    if let Some(s) = other.iter().find(|s| &s.party_id == party) {
+                        extras.push(("other-msg", s.clone()));
+                    }
+                }
+                Extra::Relabel(i, j) => {
+                    let mut s = pick(*i).clone();
+                    let other = &fixture().signers_with_stake()[pick_index(*j, 6)].party_id;
+                    if &s.party_id != other {
+                        s.party_id = other.clone();
+                        extras.push(("relabel", s));
+                    }
+                }
+                Extra::SubCopy(i, mask) => {
+                    let s0 = pick(*i);
+                    let idx = indices(s0);
+                    let mut keep: Vec<u64> = idx.iter().enumerate().filter(|(p, _)| mask >> (p % 32) & 1 == 1).map(|(_, v)| *v).collect();
+                    if keep.is_empty() {
+                        keep.push(idx[0]);
+                    }
+                    let mut inner = s0.to_protocol_signature();
+                    inner.set_concatenation_signature_indices(&keep);
+                    let mut s = s0.clone();
+                    s.signature = inner.into();
+                    s.won_indexes = keep;
+                    extras.push(("subcopy", s));
+                }
+            }
+        }
+        let mut s_prime = base.clone();
+        let mut kinds = BTreeSet::new();
+        for (ei, (name, s)) in extras.iter().enumerate() {
+            let pos = pick_index(c.positions.get(ei).copied().unwrap_or(u16::MAX), s_prime.len() + 1);
+            s_prime.insert(pos, s.clone());
+            kinds.insert(*name);
+        }
+        let mut s_perm = s_prime.clone();
+        for (i, r) in c.perm.iter().enumerate() {
+            if s_perm.len() > 1 {
+                let a = i % s_perm.len();
+                let b = pick_index(*r, s_perm.len());
+                s_perm.swap(a, b);
+            }
+        }
+        let cover = |set: &[SingleSignature]| -> BTreeSet<u64> { set.iter().filter(|s| ms.verify_single_signature(&msg, s).is_ok()).flat_map(indices).collect() };
+        let mut outcomes = vec![];
+        for (name, set) in [("S", &base), ("S'", &s_prime), ("perm(S')", &s_perm)] {
+            let u = cover(set);
+            let res = catch(|| {
+                ms.aggregate_single_signatures(set, &msg, AggregateSignatureType::Concatenation, AncillaryProofInput::new(None, AncillaryGenesisData::new()))
+                    .map_err(|e| format!("{e:#}"))
+            });
+            match res {
+                Err(p) => {
+                    rep.violation("node:aggregation-panicked", format!("{name}: {p}"));
+                    return rep;
+                }
+                Ok(Ok(m)) => {
+                    if u.len() as u64 >= k {
+                        if let Err(e) = m.multi_signature.verify(msg.to_message().as_bytes(), &avk, &pp.clone().into(), None, None) {
+                            rep.violation("node:aggregate-does-not-verify", format!("MultiSigner aggregate of {name} does not verify: {e:#}; extras {kinds:?}"));
+                            return rep;
+                        }
+                    }
+                    outcomes.push(true);
+                }
+                Ok(Err(e)) => {
+                    if u.len() as u64 >= k {
+                        rep.violation(
+                            "node:complete-but-failed",
+                            format!("MultiSigner: valid signatures in {name} cover {} >= k={k} indices but aggregation failed: {e}; extras {kinds:?}; msg {id} base {:#x}", u.len(), c.base_mask),
+                        );
+                        return rep;
+                    }
+                    outcomes.push(false);
+                }
+            }
+        }
+        if outcomes[0] && !outcomes[1] {
+            rep.violation("node:extra-material-breaks-aggregation", format!("S aggregates but S' = S + {kinds:?} does not"));
+        }
+        if outcomes[1] != outcomes[2] {
+            rep.violation("node:order-dependent", format!("S' aggregates: {} but a permutation: {}; extras {kinds:?}", outcomes[1], outcomes[2]));
+        }
+        for kname in &kinds {
+            rep.label(format!("node-extra:{kname}"));
+        }
+        rep.label("node-path");
+        if !extras.is_empty() && outcomes[0] {
+            rep.nontrivial(format!("node kinds:{kinds:?} base:{} extras:{} msg:{id}", base.len(), extras.len()));
+        }
+        rep
+    }
+
+    pub fn strategy() -> impl Strategy<Value = Case> {
+        let r = any::<u16>();
+        let extra = prop_oneof![
+            3 => r.prop_map(Extra::Copy),
+            3 => r.prop_map(Extra::OtherMsg),
+            2 => (r, r).prop_map(|(i, j)| Extra::Relabel(i, j)),
+            2 => (r, any::<u32>()).prop_map(|(i, m)| Extra::SubCopy(i, m)),
+        ];
+        (any::<u8>(), r, prop_oneof![2 => Just(0u16), 1 => r], prop::collection::vec(extra, 0..5), prop::collection::vec(r, 5), prop::collection::vec(r, 0..5))
+            .prop_map(|(msg_id, kraw, base_mask, extras, positions, perm)| Case { msg_id, kraw, base_mask, extras, positions, perm })
+    }
+}
+
 pub fn run(args: &Args) -> i32 {
     let mut check = Check::new("C02", "exploration", args);
     check
@@ -369,7 +572,10 @@ pub fn run(args: &Args) -> i32 {
         .require_label("extra:other-msg")
         .require_label("duplicate-precedes-original")
         .require_label("base:below-k")
-        .require_label("S':aggregated");
+        .require_label("S':aggregated")
+        .require_label("node-path")
+        .require_label("node-extra:other-msg")
+        .require_label("node-extra:relabel");
     let t = check.tier;
     check.shrink_iters(300);
     let scale = if check.is_replay() { 0 } else { 1 };
@@ -379,5 +585,10 @@ pub fn run(args: &Args) -> i32 {
         return check.finish();
     }
     check.section("multisets", || case_strategy(pool.clone()), t.pick(8000, 200_000), case_fn);
+    // the same laws through mithril-common's MultiSigner (what the aggregator calls), on KES-certified fixture signers
+    if !check.is_replay() {
+        let _ = node_path::fixture();
+    }
+    check.section("multi-signer", node_path::strategy, t.pick(1500, 40_000), node_path::case_fn);
     check.finish()
 }
